@@ -143,7 +143,7 @@ PENDING = {
     'C16': dict(props_file='Props/C16.v', theorems=[], kernels=[], grid=True, scenarios=['basic.ops', 'findings.ops', 'branches.ops', 'overflow.ops', 'token.ops', 'queries.ops'],
                 profiles=['token', 'general'], keys=['rw.holder', 'rw.state', 'rw.qholders', 'rw.qstate', 'tok.bsei', 'm wasm bsei', 'm wasm hub bsei'],
                 ops=[r'^cw bsei', r'^bond b', r'^reward \S+ (inc|dec)'], assumes=E_ENV + ['bSei instantiated without initial balances']),
-    'C19': dict(props_file='Props/C19.v', theorems=[], kernels=['swapinfo'], scenarios=['basic.ops', 'findings.ops', 'branches.ops', 'overflow.ops', 'funds.ops'],
+    'C19': dict(props_file='Props/C19.v', theorems=[], kernels=['swapinfo', 'drewards'], scenarios=['basic.ops', 'findings.ops', 'branches.ops', 'overflow.ops', 'funds.ops'],
                 profiles=['rewards'], keys=HUBKEYS + ['m ', 'bank ', 'pend', 'rw.', 'dp.'],
                 ops=[r'^hub \S+ updateglobal', r'^reg \S+ remove', r'^accrue'], assumes=E_ENV + ['swap and oracle stubs of PROTOCOL.md section 4 (E7)']),
 }
